@@ -93,6 +93,8 @@ def checkSched (c : Case) : VM Unit := do
   vstat "c09.networks" 1
   vstat "c05.depotnodes" (if depotNodesB nw then 1 else 0)
   vstat "c09.nethyps" (if netHypsB nw then 1 else 0)
+  vstat "c10.networks" 1
+  vstat "c10.tourhyps" (if tourHypsB nw then 1 else 0)
   vstat "sched.changed" nChanged
   vstat "sched.op-kinds" kinds.length
   if let some p := pre then
